@@ -37,13 +37,14 @@ type RecvEv struct {
 
 // ClientNode is a real signaling client plus its application tasks.
 type ClientNode struct {
-	W      *ClientWorld
-	P      *Party
-	C      *signaling_client.Client
-	RPC    *RPCClient
-	ctx    context.Context
-	cancel context.CancelFunc
-	Refs   map[string]*signaling_client.ClientPeerRef // by remote party name
+	W         *ClientWorld
+	P         *Party
+	C         *signaling_client.Client
+	RPC       *RPCClient
+	ctx       context.Context
+	cancel    context.CancelFunc
+	Refs      map[string]*signaling_client.ClientPeerRef // by remote party name
+	refCancel map[string]context.CancelFunc
 	// ListenEvents records handler callbacks: "reset" | "+X" | "-X"
 	ListenEvents []string
 }
@@ -107,10 +108,15 @@ func (cn *ClientNode) AddRef(remote string) {
 	w := cn.W
 	ref := cn.C.AddPeerRef(w.Parties[remote].IDs)
 	cn.Refs[remote] = ref
+	rctx, rcancel := context.WithCancel(cn.ctx)
+	if cn.refCancel == nil {
+		cn.refCancel = map[string]context.CancelFunc{}
+	}
+	cn.refCancel[remote] = rcancel
 	w.S.Logf("addref %s->%s", cn.P.Name, remote)
 	go func() {
 		for {
-			m, err := ref.Recv(cn.ctx)
+			m, err := ref.Recv(rctx)
 			if err != nil {
 				return
 			}
@@ -127,6 +133,20 @@ func (cn *ClientNode) AddRef(remote string) {
 			}
 		}
 	}()
+}
+
+// ReleaseRef releases the peer ref to remote (the application is done with that peer):
+// its receive loop ends, pending sends on it are cancelled by their owner, the client
+// drops the peer tracker (and with it the message numbering) when this was the last ref.
+func (cn *ClientNode) ReleaseRef(remote string) {
+	ref := cn.Refs[remote]
+	if ref == nil {
+		return
+	}
+	delete(cn.Refs, remote)
+	cn.refCancel[remote]()
+	ref.Release()
+	cn.W.S.Logf("releaseref %s->%s", cn.P.Name, remote)
 }
 
 // StartSend launches an application Send.
